@@ -26,3 +26,18 @@ CHECKS["C17"] = dict(
     design_ref="DESIGN.md section 3 C17",
     note="Trusted: the phase boundary is observed with a recording executor wrapper; storage is fault-free MemoryStore. Known findings are listed in KNOWN_FINDINGS.txt.",
 )
+
+CHECKS["C12"] = dict(
+    level="exploration",
+    technique="property-based testing: generated programs executed on a schedule-owning executor whose write proxies check every written block's shape against its target region; declared metadata compared with computed results and stored zarr metadata",
+    text="For every generated program all nodes are requested unoptimized (run A) and the outputs optimized (run B). Every task of every operation writes through checking proxies (cubed's own task bodies run unchanged) that compare value.shape with the selection's shape, so a block silently broadcast or truncated by Zarr is seen even when final values happen to be right. Declared shape/dtype/chunks are compared with the computed result, NumPy's shape and the zarr array opened from storage.",
+    design_ref="DESIGN.md section 3 C12",
+    note="Zero-element blocks are exempt from the block-shape clause (nothing is written). Trusted: the proxy substitution via dataclasses.replace on BlockwiseSpec.writes_map (public dataclass field).",
+)
+CHECKS["C05"] = dict(
+    level="exploration",
+    technique="property-based testing with a trace invariant: generated programs (rechunks under tight memory budgets, store/to_zarr call shapes) run on a schedule-owning executor over a tracing zarr store; per-key single-writer / whole-chunk / coverage analysis against the chunk grid parsed from stored metadata",
+    text="Each case executes on a zarr Store wrapper that records every get/set with the task that issued it. For every array written (intermediates, rechunk stages with regular and rectilinear grids, user targets incl. regions, groups, sharded and differently chunked existing arrays) the check requires: all grid keys set, each exactly once and by one task, no read of the key by its writer before the set, nothing outside the grid/region. Tight-budget rechunk geometries are shared with C14's generator.",
+    design_ref="DESIGN.md section 3 C05",
+    note="Grid truth is parsed from the stored zarr.json (regular and rectilinear), independent of cubed's bookkeeping. Sharded targets are exempt from the no-prior-read clause (zarr reads edge shards itself). Racing writers are not simulated; the single-writer invariant is what excludes races.",
+)
